@@ -43,4 +43,309 @@ theorem norm_zero (e : Int) : norm 0 e = (0, 0) := by
   simp [norm, bitlen, normFuel]
 
 end Num
+
+namespace Gocty
+
+theorem norm_of_normal {n : Bool} {m : Nat} {e : Int} {p : Nat}
+    (h : normalNum (.fin n m e p) = true) : Num.norm m e = (m, e) := by
+  unfold normalNum at h
+  by_cases hm : m = 0
+  · subst hm; simp at h; subst h; exact Num.norm_zero 0
+  · simp [hm] at h
+    unfold Num.norm
+    simp [Num.normFuel, hm]
+    omega
+
+theorem toInt?_iff (x : Num) (hx : normalNum x = true) (k : Int) :
+    x.toInt? = some k ↔ IsTheInt x k := by
+  cases x with
+  | inf n => simp [Num.toInt?, Num.isInt, IsTheInt]
+  | fin n m e p =>
+    unfold Num.toInt? Num.isInt IsTheInt
+    by_cases he : e ≥ 0
+    · have h0 : (-e).toNat = 0 := by omega
+      simp only [he, decide_true, if_true, Num.truncInt, h0, Int.pow_zero, Int.mul_one,
+        Option.some.injEq]
+      cases n <;> simp [Int.neg_mul]
+    · simp only [he, decide_false]
+      simp only [Bool.false_eq_true, if_false]
+      refine ⟨fun h => by simp at h, fun h => ?_⟩
+      exfalso
+      have h0 : e.toNat = 0 := by omega
+      rw [h0] at h
+      simp only [Int.pow_zero, Int.mul_one] at h
+      obtain ⟨j, hj⟩ : ∃ j, (-e).toNat = j + 1 := ⟨(-e).toNat - 1, by omega⟩
+      rw [hj, Int.pow_succ, ← Int.mul_assoc] at h
+      generalize k * 2 ^ j = y at h
+      unfold normalNum at hx
+      by_cases hm : m = 0
+      · simp [hm] at hx; omega
+      · simp [hm] at hx
+        cases n <;> simp at h <;> omega
+
+
+theorem intMinMax_bits (w : IntW) : intMinMax w.bits = some (lo w.bits true, hi w.bits true) := by
+  cases w <;> decide
+
+theorem uintMax_bits (w : IntW) : uintMax w.bits = some (hi w.bits false) := by
+  cases w <;> decide
+
+theorem lo_ge_int64 (w : IntW) : -9223372036854775808 ≤ lo w.bits true := by cases w <;> decide
+theorem hi_le_int64 (w : IntW) : hi w.bits true ≤ 9223372036854775807 := by cases w <;> decide
+theorem hi_le_uint64 (w : IntW) : hi w.bits false ≤ 18446744073709551615 := by cases w <;> decide
+theorem hi_nonneg (w : IntW) : 0 ≤ hi w.bits false := by cases w <;> decide
+
+/-- signed targets -/
+theorem fromNumInt_ok_iff (x : Num) (hx : normalNum x = true) (w : IntW) (k : Int) :
+    fromNumInt x w.bits = .ok k ↔ IsTheInt x k ∧ lo w.bits true ≤ k ∧ k ≤ hi w.bits true := by
+  have h1 := lo_ge_int64 w
+  have h2 := hi_le_int64 w
+  rw [← toInt?_iff x hx]
+  unfold fromNumInt int64Exact
+  rw [intMinMax_bits]
+  simp only []
+  cases h : x.toInt? with
+  | none => simp
+  | some j =>
+    simp only [Option.some.injEq]
+    by_cases hr : -9223372036854775808 ≤ j ∧ j ≤ 9223372036854775807
+    · simp only [hr, and_self, if_true]
+      by_cases hb : j < lo w.bits true ∨ j > hi w.bits true
+      · simp only [hb, if_true]
+        constructor
+        · intro h; cases h
+        · rintro ⟨rfl, h3, h4⟩; omega
+      · simp only [hb, if_false, Res.ok.injEq]
+        constructor
+        · rintro rfl; exact ⟨rfl, by omega, by omega⟩
+        · rintro ⟨rfl, _, _⟩; rfl
+    · simp only [hr, if_false]
+      constructor
+      · intro h; cases h
+      · rintro ⟨rfl, h3, h4⟩; omega
+
+
+/-- unsigned targets -/
+theorem fromNumUInt_ok_iff (x : Num) (hx : normalNum x = true) (w : IntW) (k : Int) :
+    fromNumUInt x w.bits = .ok k ↔ IsTheInt x k ∧ 0 ≤ k ∧ k ≤ hi w.bits false := by
+  have h2 := hi_le_uint64 w
+  have h3 := hi_nonneg w
+  rw [← toInt?_iff x hx]
+  unfold fromNumUInt
+  rw [uintMax_bits]
+  simp only []
+  cases x with
+  | inf n => simp [uint64Exact, Num.toInt?, Num.isInt]
+  | fin n m e p =>
+    have hn := norm_of_normal hx
+    unfold uint64Exact
+    simp only [hn]
+    unfold Num.toInt? Num.isInt
+    by_cases he : e ≥ 0
+    · simp only [he, decide_true, Bool.not_true, Bool.false_eq_true, false_or, if_true, Num.truncInt]
+      by_cases hm : m = 0
+      · subst hm
+        simp only [if_true]
+        have : ¬ ((0:Int) > hi w.bits false) := by omega
+        simp only [this, if_false]
+        cases n <;> simp <;> (rintro rfl; omega)
+      · simp only [hm, if_false]
+        have hpos : (0:Int) < (m:Int) * 2 ^ e.toNat :=
+          Int.mul_pos (by omega) (Int.pow_pos (by decide))
+        cases n with
+        | true =>
+          simp only [if_true]
+          constructor
+          · intro h; cases h
+          · rintro ⟨h, h4, _⟩; simp at h; omega
+        | false =>
+          simp only [Bool.false_eq_true, if_false]
+          have hbl := Num.bitlen_pos hm
+          have hexp : ¬ (e + (Num.bitlen m : Int) ≤ 0) := by omega
+          simp only [hexp, if_false]
+          by_cases h64 : e + (Num.bitlen m : Int) ≤ 64
+          · have hb : Num.bitlen m ≤ 64 := by omega
+            simp only [h64, hb, if_true, he]
+            by_cases hgt : (m:Int) * 2 ^ e.toNat > hi w.bits false
+            · simp only [hgt, if_true]
+              constructor
+              · intro h; cases h
+              · rintro ⟨h, _, h5⟩; simp at h; omega
+            · simp only [hgt, if_false, Res.ok.injEq, Option.some.injEq]
+              constructor
+              · rintro rfl; exact ⟨rfl, by omega, by omega⟩
+              · rintro ⟨rfl, _, _⟩; rfl
+          · simp only [h64, if_false]
+            constructor
+            · intro h; cases h
+            · rintro ⟨h, _, h5⟩
+              simp only [Option.some.injEq] at h
+              exfalso
+              have h6 := Num.two_pow_bitlen_le hm
+              have h7 : 2 ^ 64 ≤ 2 ^ (Num.bitlen m - 1 + e.toNat) :=
+                Nat.pow_le_pow_right (by decide) (by omega)
+              rw [Nat.pow_add] at h7
+              have h8 : 2 ^ (Num.bitlen m - 1) * 2 ^ e.toNat ≤ m * 2 ^ e.toNat :=
+                Nat.mul_le_mul_right _ h6
+              have h9 : ((m * 2 ^ e.toNat : Nat) : Int) = (m:Int) * 2 ^ e.toNat := by push_cast; rfl
+              omega
+    · simp only [he, decide_false, Bool.not_false, true_or, if_true, Bool.false_eq_true, if_false]
+      constructor
+      · intro h; split at h <;> cases h
+      · rintro ⟨h, _⟩; cases h
+
+
+theorem normFuel_odd : ∀ (fuel m : Nat) (e : Int), m ≠ 0 → m < 2 ^ fuel →
+    (Num.normFuel fuel m e).1 % 2 = 1
+  | 0, m, e, h0, h => by simp at h; omega
+  | fuel + 1, m, e, h0, h => by
+    simp only [Num.normFuel, h0, if_false]
+    split
+    · exact normFuel_odd fuel (m / 2) (e + 1) (by omega) (by rw [Nat.pow_succ] at h; omega)
+    · simp; omega
+
+/-- every number has a normal representation: the one `Num.mk` (hence every
+arithmetic result and the wire codec of the harness) builds -/
+theorem normal_mk (n : Bool) (m : Nat) (e : Int) (p : Nat) : normalNum (Num.mk n m e p) = true := by
+  unfold Num.mk normalNum
+  by_cases hm : m = 0
+  · subst hm; simp [Num.norm_zero]
+  · obtain ⟨k, _, _, h3⟩ := Num.norm_spec m e hm
+    have := normFuel_odd (Num.bitlen m + 1) m e hm
+      (Nat.lt_trans (Num.lt_two_pow_bitlen m) (Nat.pow_lt_pow_right (by decide) (by omega)))
+    simp only [h3, if_false]
+    simpa [Num.norm] using this
+
+theorem fromNum_int_signed (x : Num) (w : IntW) :
+    fromNum x (.int w true) = mapRes GoVal.int (fromNumInt x w.bits) := by
+  simp only [fromNum]; cases fromNumInt x w.bits <;> rfl
+
+theorem fromNum_int_unsigned (x : Num) (w : IntW) :
+    fromNum x (.int w false) = mapRes GoVal.int (fromNumUInt x w.bits) := by
+  simp only [fromNum]; cases fromNumUInt x w.bits <;> rfl
+
+theorem mapRes_int_ok_iff (r : Res Int) (g : GoVal) :
+    mapRes GoVal.int r = .ok g ↔ ∃ k, r = .ok k ∧ g = .int k := by
+  cases r <;> simp [mapRes, eq_comm]
+
+theorem fromNum_int_ok_iff (x : Num) (hx : normalNum x = true) (w : IntW) (s : Bool) (g : GoVal) :
+    fromNum x (.int w s) = .ok g ↔
+      ∃ k, IsTheInt x k ∧ lo w.bits s ≤ k ∧ k ≤ hi w.bits s ∧ g = .int k := by
+  cases s with
+  | true =>
+    rw [fromNum_int_signed, mapRes_int_ok_iff]
+    constructor
+    · rintro ⟨k, hk, rfl⟩
+      have := (fromNumInt_ok_iff x hx w k).mp hk
+      exact ⟨k, this.1, this.2.1, this.2.2, rfl⟩
+    · rintro ⟨k, hk, h1, h2, rfl⟩
+      exact ⟨k, (fromNumInt_ok_iff x hx w k).mpr ⟨hk, h1, h2⟩, rfl⟩
+  | false =>
+    have hlo : lo w.bits false = 0 := rfl
+    rw [fromNum_int_unsigned, mapRes_int_ok_iff]
+    constructor
+    · rintro ⟨k, hk, rfl⟩
+      have := (fromNumUInt_ok_iff x hx w k).mp hk
+      exact ⟨k, this.1, by omega, this.2.2, rfl⟩
+    · rintro ⟨k, hk, h1, h2, rfl⟩
+      exact ⟨k, (fromNumUInt_ok_iff x hx w k).mpr ⟨hk, by omega, h2⟩, rfl⟩
+
+/-- a number is decoded into an integer target or refused with an error: no panic, nothing unmodelled -/
+theorem fromNum_int_ok_or_err (x : Num) (w : IntW) (s : Bool) :
+    (∃ g, fromNum x (.int w s) = .ok g) ∨ (∃ c, fromNum x (.int w s) = .err c) := by
+  cases s
+  · rw [fromNum_int_unsigned]; unfold fromNumUInt
+    rw [uintMax_bits]
+    simp only []
+    cases uint64Exact x with
+    | none => exact Or.inr ⟨_, rfl⟩
+    | some iv =>
+      simp only []
+      by_cases hc : (!x.isInt) = true ∨ iv > hi w.bits false
+      · rw [if_pos hc]; exact Or.inr ⟨_, rfl⟩
+      · rw [if_neg hc]; exact Or.inl ⟨_, rfl⟩
+  · rw [fromNum_int_signed]; unfold fromNumInt
+    rw [intMinMax_bits]
+    simp only []
+    cases int64Exact x with
+    | none => exact Or.inr ⟨_, rfl⟩
+    | some iv =>
+      simp only []
+      by_cases hc : iv < lo w.bits true ∨ iv > hi w.bits true
+      · rw [if_pos hc]; exact Or.inr ⟨_, rfl⟩
+      · rw [if_neg hc]; exact Or.inl ⟨_, rfl⟩
+
+/-! ### floats -/
+
+theorem mk_not_inf (n : Bool) (m : Nat) (e : Int) (p : Nat) : (Num.mk n m e p).isInf = false := rfl
+
+/-- an infinite result of the IEEE conversion is flagged exact only for an infinite argument -/
+theorem toIEEE_inf_exact (mb : Nat) (emin emax : Int) (x : Num)
+    (h : (Num.toIEEE mb emin emax x).1.isInf = true) :
+    (Num.toIEEE mb emin emax x).2 = x.isInf := by
+  cases x with
+  | inf n => rfl
+  | fin n m e p =>
+    revert h
+    unfold Num.toIEEE
+    simp only []
+    repeat' split
+    all_goals first | (intro _; rfl) | (intro h; simp [mk_not_inf] at h; done) | (intro h; simp [Num.isInf] at h; done)
+
+theorem f64to32_inf (n : Bool) : Num.f64to32 (.inf n) = .inf n := rfl
+
+/-- `fromNumFloat` in closed form: the stored value is the correctly rounded one
+(float64: `Float64()`; float32: that, converted by Go's `float32()`), and the
+conversion is refused exactly when a finite number would be stored as an infinity -/
+theorem fromNumFloat_ok_iff (x : Num) (is32 : Bool) (f : Num) :
+    fromNumFloat x is32 = .ok f ↔
+      f = (if is32 then Num.f64to32 x.toF64.1 else x.toF64.1) ∧ (x.isInf = true ∨ f.isInf = false) := by
+  unfold fromNumFloat
+  simp only []
+  by_cases hinf : x.toF64.1.isInf = true
+  · have hex := toIEEE_inf_exact 52 (-1022) 1023 x hinf
+    have h32 : Num.f64to32 x.toF64.1 = x.toF64.1 := by
+      cases hx : x.toF64.1 with
+      | inf n => rfl
+      | fin _ _ _ _ => rw [hx] at hinf; simp [Num.isInf] at hinf
+    change x.toF64.2 = x.isInf at hex
+    cases hxi : x.isInf
+    · rw [hxi] at hex
+      simp only [hex, hinf, Bool.not_false, Bool.and_self, if_true]
+      constructor
+      · intro h; cases h
+      · rintro ⟨rfl, h⟩; cases is32 <;> simp_all
+    · rw [hxi] at hex
+      simp only [hex, hinf, Bool.not_true, Bool.false_and, Bool.false_eq_true, if_false, Bool.and_false,
+        Res.ok.injEq, true_or, and_true]
+      exact eq_comm
+  · simp only [Bool.not_eq_true] at hinf
+    simp only [hinf, Bool.and_false, Bool.false_eq_true, if_false, Bool.not_false, Bool.and_true]
+    cases is32
+    · simp only [Bool.false_and, Bool.false_eq_true, if_false, Res.ok.injEq]
+      constructor
+      · rintro rfl; exact ⟨rfl, Or.inr hinf⟩
+      · rintro ⟨rfl, _⟩; rfl
+    · simp only [Bool.true_and, if_true]
+      by_cases h2 : (Num.f64to32 x.toF64.1).isInf = true
+      · simp only [h2, if_true]
+        constructor
+        · intro h; cases h
+        · rintro ⟨rfl, h⟩
+          rcases h with h | h
+          · exfalso
+            cases x with
+            | inf n => simp [Num.toF64, Num.toIEEE, Num.isInf] at hinf
+            | fin _ _ _ _ => simp [Num.isInf] at h
+          · rw [h2] at h; cases h
+      · simp only [h2, Bool.false_eq_true, if_false, Res.ok.injEq]
+        constructor
+        · rintro rfl; exact ⟨rfl, Or.inr (by simpa using h2)⟩
+        · rintro ⟨rfl, _⟩; rfl
+
+theorem fromNum_float (x : Num) (is32 : Bool) :
+    fromNum x (.float is32) = mapRes GoVal.flt (fromNumFloat x is32) := by
+  simp only [fromNum]; cases fromNumFloat x is32 <;> rfl
+
+end Gocty
 end CtyModel
